@@ -143,7 +143,12 @@ fn run(case: &Case) -> Result<Outcome, Failure> {
     if in_child {
         let rx = rx_opt.take().unwrap();
         let wants_c = wants.clone();
+        let (tx_child_copy, tx2_child_copy) = (tx.clone(), tx2.clone());
         child = Some(sandbox::fork_child(move |w| {
+            // the child's inherited copies of the senders must go, or it could never see the
+            // channel close (the parent's own handles are separate objects)
+            drop(tx_child_copy);
+            drop(tx2_child_copy);
             let regs = match receive(&rx) {
                 Ok(r) => r,
                 Err(e) => {
